@@ -521,7 +521,7 @@ func (lf *lenFacts) clampedWindow(sl *ssa.Slice) (bool, string) {
 
 // sliceExceptions: expressions neither the compiler nor the idioms above discharge, confirmed by reading.
 var sliceExceptions = map[string]string{
-	"getItalianRegions:runes[i-1]":     "second region loop starts at i = r1, and r1 is either len(runes) (loop body never runs) or an index+1 ≥ 2 found by the first loop: i ≥ 1 whenever the body runs",
+	"getItalianRegions:runes[i-1]":          "second region loop starts at i = r1, and r1 is either len(runes) (loop body never runs) or an index+1 ≥ 2 found by the first loop: i ≥ 1 whenever the body runs",
 	"step3_final_vowels:newS[:len(newS)-1]": "newS is s minus its final byte and the branch is entered only when s ends in \"chi\"/\"ghi\": len(newS) ≥ 2",
 }
 
